@@ -309,12 +309,15 @@ func corsRequests(cfg corsCfg, r *ref.R, random bool) []corsReq {
 		// scale: forty entries; all allowed, and all allowed but the last
 		"forty-allowed":         strings.Repeat(pickH(0)+", "+strings.ToLower(pickH(1))+", ", 20) + pickH(2),
 		"forty-then-disallowed": strings.Repeat(pickH(0)+", "+strings.ToLower(pickH(1))+", ", 20) + rs("X-Evil"),
+		// an allowed name with one byte that is no letter replaced by the byte that differs from it in bit 0x20 only
+		// ('-' and CR, '_' and DEL, '~' and '^', '2' and 0x12): case folding is for letters
+		"byte-neighbour-of-allowed": byteNeighbour(pickH(0)) + ", " + pickH(1),
 	}
 	for _, m := range []string{"GET", "HEAD", "POST", "OPTIONS", "PUT", "BOGUS"} {
 		for _, pc := range []string{"live", "notfound", "star"} {
 			for _, o := range originClasses {
 				for _, acrm := range []string{"", "GET", "POST", "DELETE", "get", "GE", "GET, HEAD", "PROPFIND", "HEAD", "OPTIONS", "TRACE"} {
-					for _, hn := range []string{"absent", "as-configured", "lower-case", "each-upper-case", "mixed-spaces", "one-disallowed", "prefix-of-allowed", "extension-of-allowed", "empty-element", "forty-allowed", "forty-then-disallowed"} {
+					for _, hn := range []string{"absent", "as-configured", "lower-case", "each-upper-case", "mixed-spaces", "one-disallowed", "prefix-of-allowed", "extension-of-allowed", "empty-element", "forty-allowed", "forty-then-disallowed", "byte-neighbour-of-allowed"} {
 						out = append(out, corsReq{Method: m, PathClass: pc, HasOrigin: o.has, Origin: o.val, ACRM: acrm, ACRH: acrhClasses[hn],
 							class: fmt.Sprintf("%s %s origin=%s acrm=%q acrh=%s", m, pc, o.name, acrm, hn)})
 					}
@@ -325,13 +328,26 @@ func corsRequests(cfg corsCfg, r *ref.R, random bool) []corsReq {
 	return out
 }
 
+// byteNeighbour replaces the first byte of name that is no letter by the byte that differs from it in bit 0x20 only
+// (a name of letters only gets a '~' appended): equal for a comparison that folds case by or-ing 0x20 into every byte.
+func byteNeighbour(name string) string {
+	b := []byte(name)
+	for i, c := range b {
+		if !(c >= 'a' && c <= 'z' || c >= 'A' && c <= 'Z') && c != ',' && c != ' ' {
+			b[i] = c ^ 0x20
+			return string(b)
+		}
+	}
+	return name + "~"
+}
+
 func runCORS(c *Ctx, prop string) {
 	cfgs := corsConfigs()
 	cfg := cfgs[c.Case%len(cfgs)]
 	random := c.Case >= len(cfgs) // the first pass instantiates every class canonically, later passes randomly
 	if random && len(cfg.AllowH) > 0 && !hasAny(cfg.AllowH) {
 		// a random allow-list: 1-6 names in random spelling and order (unsorted, mixed case, names that are prefixes of each other)
-		pool := []string{"Content-Type", "X-Token", "X-Token-Id", "Authorization", "X", "x-a", "Accept-Language", "X-Requested-With", "If-Match", "a"}
+		pool := []string{"Content-Type", "X-Token", "X-Token-Id", "Authorization", "X", "x-a", "Accept-Language", "X-Requested-With", "If-Match", "a", "X_Api~Key", "X-V2", "x|y"}
 		ref.Shuffle(c.R, pool)
 		cfg.AllowH = nil
 		for _, h := range pool[:c.R.Range(1, 6)] {
@@ -803,7 +819,7 @@ func init() {
 		}
 		return n * 8
 	}
-	rule := "the class product is enumerated completely: " + fmt.Sprint(n) + " configuration classes (origins none/any/one/several/any+others x allowed headers none/any/list/mixed-case unsorted list x exposed x max-age 0/-1/n x credentials, minus the rejected '*'+credentials) x 15246 request classes (6 methods x 3 paths x 7 origin classes (absent, listed, unlisted, other case, null, *, the origin of a sibling router that shares the caller's origin array) x 11 Access-Control-Request-Method classes (absent, served, unserved, lower case, fragment, joined list, unknown, the automatically served HEAD and OPTIONS, and TRACE which is not served without WithTrace) x 11 Access-Control-Request-Headers classes derived from the configured list: as configured, lower/upper case, spaced lists, one disallowed, proper prefix / extension of an allowed name, empty element, forty entries all allowed / all but the last); first pass canonical strings, further passes random instantiations; " +
+	rule := "the class product is enumerated completely: " + fmt.Sprint(n) + " configuration classes (origins none/any/one/several/any+others x allowed headers none/any/list/mixed-case unsorted list x exposed x max-age 0/-1/n x credentials, minus the rejected '*'+credentials) x 16632 request classes (6 methods x 3 paths x 7 origin classes (absent, listed, unlisted, other case, null, *, the origin of a sibling router that shares the caller's origin array) x 11 Access-Control-Request-Method classes (absent, served, unserved, lower case, fragment, joined list, unknown, the automatically served HEAD and OPTIONS, and TRACE which is not served without WithTrace) x 12 Access-Control-Request-Headers classes derived from the configured list: as configured, lower/upper case, spaced lists, one disallowed, proper prefix / extension of an allowed name, empty element, forty entries all allowed / all but the last, an allowed name with one non-letter byte flipped in bit 0x20); first pass canonical strings, further passes random instantiations; " +
 		"non-trivial (distinct) = every (configuration class, request class, concrete strings) triple"
 	Register(&Engine{
 		ID: "C11", Cases: cases, Anchors: []string{"options.go:cors.handle", "options.go:cors.headerIsAllowed", "options.go:cors.sanitize"}, Run: func(c *Ctx) { runCORS(c, "C11") }, Directed: corsDirected("C11"), Rule: rule, Exhaustive: true,
